@@ -9,8 +9,9 @@ s_ab independent of the mus.  Monotonicity in the mu gap (two teams) and
 probability is even in d and non-increasing in |d|), which is machine-checked
 against Mathlib in lemmas/Phi2.lean (band_even, band_antitone_on_nonneg,
 band_le_band_zero); the last step is a generic z3 lemma per pair count.
-NOT decided: <= 1 for two teams (needs the numeric constants
-sqrt(N/2) PhiInv(1/2 + 1/(2N)) <= PhiInv(3/4), N = 2..16)."""
+'<= 1 for two teams' follows from the same band form and the lemma two_team_draw_le_one
+(lemmas/Phi3.lean: sqrt(N/2) PhiInv(1/2 + 1/(2N)) <= PhiInv(3/4) for every N >= 2, by concavity
+of Phi on [0, oo)), so every clause of the property is decided relative to Lean-checked analysis."""
 from __future__ import annotations
 
 import time
@@ -175,11 +176,11 @@ def main(tier, seed):
             __import__("pyvc.props.anysize", fromlist=["A_SUM"]).A_SUM,
             "A-Phi (0 < Phi < 1, reflection, monotone instances), PhiInv increasing with PhiInv(1/2) = 0; phi_major / phi_major_inverse enter as Phi / PhiInv (C17) [A-Phi is machine-checked against Mathlib in lemmas/Phi.lean for Phi := the standard Gaussian CDF (thorough tier of C17); that libm's erfc/2 is this Phi stays assumed]",
             "L-band (the band probability Phi((m-d)/s) - Phi((-m-d)/s), m >= 0, s > 0, is even in d and non-increasing in |d|): machine-checked against Mathlib in lemmas/Phi2.lean (thorough tier); 'never increases as the gap widens' (two teams) and 'equalising never lowers' (n teams) are decided as: the code's value is the ordered-pair average of band probabilities with mu-free margin and scales (exact normal-form identity on the real predict_draw) + L-band + a generic z3 step",
-            "NOT DECIDED: predict_draw <= 1 for two teams (needs the numeric constants sqrt(N/2) PhiInv(1/2 + 1/(2N)) <= PhiInv(3/4) for N = 2..16; no contract within reach decides them)",
+            "predict_draw <= 1 for two teams: the band form (m = sqrt(N) beta PhiInv((1 + 1/N)/2), s = sqrt(2 beta^2 + var_a + var_b), value = band(d) + band(-d)) is an exact identity on the real predict_draw (also for teams of every size, N = L_0 + L_1 >= 2); 2 band <= 1 is the lemma two_team_draw_le_one, machine-checked against Mathlib in lemmas/Phi3.lean for the mathematical Phi and its inverse (that NormalDist.inv_cdf computes this inverse is assumed, as A-erf is)",
             "A-fp: reals; order independence 'beyond rounding' is exact equality over the reals",
             "shape-bounded (coverage.shapes)",
         ],
         explanation=("Several executions of the real predict_draw on the same symbolic teams (base, adjacent team transpositions, swapped players): the value is the closed form |S|/D with S >= 0 proved from Phi-monotonicity instances (so abs is the identity), non-negative, <= 1 for more than two teams, and identical - as exact normal forms - under reordering of teams and of players. "
-                     "The value is also proved to be the ordered-pair average of band probabilities whose margin and scales mention no mu, from which the two monotonicity clauses follow by the Lean-checked lemma L-band; '<= 1 for two teams' is listed as not decided."),
+                     "The value is also proved to be the ordered-pair average of band probabilities whose margin and scales mention no mu, from which the two monotonicity clauses follow by the Lean-checked lemma L-band and '<= 1 for two teams' by the Lean-checked lemma two_team_draw_le_one."),
         shapes=[str(s) for s in shapes(tier, nmax=3 if tier == "quick" else 5)] + [f"n=2..{3 if tier == 'quick' else 5} teams of every size (symbolic member counts)"],
     )
